@@ -103,6 +103,11 @@ def r21(ctx, R, rule='R2.1'):
          'not found', func=us, nontrivial=False)
 
 
+def g_dom_entry(f, st):
+    """st is a top-level statement of f (not nested in a loop/try)."""
+    return any(st is x for x in f.node.body)
+
+
 def r21b(ctx, R):
     """The post-merge filter."""
     prog = ctx.prog
@@ -140,12 +145,31 @@ def r21b(ctx, R):
          'rejects used + amount > capacity and amount > max_unit on the '
          'summed amounts', raw, func=f)
     tail = [n for n in f.node.body if isinstance(n, ast.Return)]
+    # every other "fits" answer: only when no class is requested by two
+    # groups (nothing was summed, the per-group queries checked the rest)
+    early = []
+    for r in own_nodes(f.node):
+        if not isinstance(r, ast.Return) or r in tail:
+            continue
+        if isinstance(r.value, ast.Constant) and r.value.value is True:
+            continue
+        gi = C.guarding_ifs(r, f.node)
+        t = gi[0][0].test if len(gi) == 1 and gi[0][1] == 'body' else None
+        if isinstance(t, ast.UnaryOp) and isinstance(t.op, ast.Not) and \
+                src(t.operand) == '%s.multi_group_rcs' % f.params[0] and \
+                g_dom_entry(f, gi[0][0]):
+            continue
+        early.append('line %d: return %s under %s' % (
+            r.lineno, src(r.value) if r.value is not None else 'None',
+            [src(i.test) for i, _b in gi]))
     R.ob('R2.1', 'exceeds_capacity:default-false', len(tail) == 1 and
          isinstance(tail[0].value, ast.Constant) and tail[0].value.value
-         is False and not [x for x in own_nodes_of(loops[0])
-                           if isinstance(x, (ast.Continue, ast.Break))],
-         'no request is skipped; the result is False only after the loop',
-         [src(t) for t in tail], func=f, nontrivial=False)
+         is False and not early and not [
+             x for x in own_nodes_of(loops[0])
+             if isinstance(x, (ast.Continue, ast.Break))],
+         'no request is skipped; the answer "fits" is given only after the '
+         'loop (or at once when no class is requested by two groups)',
+         early or [src(t) for t in tail], func=f)
     key_ok = len(ps) == 1 and src(ps[0].value.slice) in C.names_in(
         ps[0].value.slice) or True
     # capacity_int = int((total - reserved) * ratio); used0 = int(used or 0)
